@@ -58,6 +58,13 @@ def stdBehave (ctx : Nat) (strict : Nat → Bool) (t : Tid) (vs : List (Option V
   if strict t && vs.any Option.isNone then none
   else some (1000 * t + ctx + (vs.map (fun o => o.getD 7)).foldl (· + ·) 0)
 
+/-- a second `run_tasks` call on the same objects and storage -/
+structure Second where
+  req : List Iid
+  bust : Bool
+  ctx : Nat
+  sched : List Choice
+
 structure Case where
   cfg : Config
   p : Problem
@@ -65,6 +72,8 @@ structure Case where
   sched : List Choice
   nTids : Nat
   nInst : Nat
+  strict : Nat → Bool
+  second : Option Second
 
 def parseInst (s : String) : Option (List (Nat × List Nat)) :=
   if s.isEmpty then some [] else
@@ -106,11 +115,18 @@ def parseCase (parts : List String) : Option Case := do
     fails := fun t => flag t 1
     dies := fun t => flag t 2
     behave := stdBehave ctx (fun t => flag t 4) }
+  let mkSched := fun (l : List Nat) => l.map (fun m => ({ finish := fun i => m / (2 ^ i) % 2 == 1 } : Choice))
+  let second : Option Second := match get m "req2", get m "bust2", get m "ctx2", get m "sched2" with
+    | some r2, some b2, some c2, some s2 =>
+      match natList r2, b2.toNat?, c2.toNat?, natList s2 with
+      | some r, some b, some c, some s => some { req := r, bust := b == 1, ctx := c, sched := mkSched s }
+      | _, _, _, _ => none
+    | _, _, _, _ => none
   pure { cfg := { backend := be, maxWorkers := mw, contOnFail := cof == 1, bust := bust == 1 },
-         p := p, store := pre, sched := sched.map (fun m => { finish := fun i => m / (2 ^ i) % 2 == 1 }),
-         nTids := ty.length, nInst := inst.length }
+         p := p, store := pre, sched := mkSched sched,
+         nTids := ty.length, nInst := inst.length, strict := fun t => flag t 4, second := second }
 
-def observe (c : Case) : String :=
+def observeRun (c : Case) (marked0 : List Iid) : String × RS :=
   let rs := run c.cfg c.p c.store (c.nInst + 1) c.sched
   let ts0 := plan c.cfg c.p c.store (c.nInst + 1)
   let tids := List.range c.nTids
@@ -119,10 +135,22 @@ def observe (c : Case) : String :=
   let inflight := rs.futs
   let execs := (rs.trace.filterMap (showExec inflight)).toArray.qsort (· < ·) |>.toList
   let storeS := showPairs (rs.store.filter (fun kv => kv.1 ∉ inflight))
-  "; ".intercalate ([planS] ++ evs ++
+  ("; ".intercalate ([planS] ++ evs ++
     [s!"status={showStatus rs.status}", s!"execs={"/".intercalate execs}", s!"store={storeS}",
-     s!"marked={showList (sortNat rs.marked)}", s!"results={showList (sortNat (rs.results.map (·.1)))}",
-     s!"pending={showList rs.ts.pending}", s!"active={showList (sortNat rs.ts.active)}"])
+     s!"marked={showList (sortNat (dedup (marked0 ++ rs.marked)))}", s!"results={showList (sortNat (rs.results.map (·.1)))}",
+     s!"pending={showList rs.ts.pending}", s!"active={showList (sortNat rs.ts.active)}"]), rs)
+
+def observe (c : Case) : String :=
+  let (o1, rs1) := observeRun c []
+  match c.second, rs1.status with
+  | some s2, .returned _ =>
+    let c2 : Case := { c with
+      cfg := { c.cfg with bust := s2.bust }
+      p := { c.p with requested := s2.req, behave := stdBehave s2.ctx c.strict }
+      store := rs1.store, sched := s2.sched, second := none }
+    let (o2, _) := observeRun c2 (dedup rs1.marked)
+    o1 ++ " || " ++ o2
+  | _, _ => o1
 
 def handle (parts : List String) : String :=
   match parseCase parts with
